@@ -21,7 +21,26 @@ type clause struct {
 }
 
 // FuncContract is the contract of one function (or closure, type, interface method).
+// iterSpec: `iterates <param> count <E> args <E1>, <E2>`: the function calls its parameter <param> for cbidx = 0, 1, ...
+// below count with the given arguments, in this order, and stops as soon as a call returns false.
+type iterSpec struct {
+	param string
+	count ast.Expr
+	args  []ast.Expr
+	text  string
+}
+
+// callbackSpec: `callback "<anchor>" invariant E` / `callback "<anchor>" stopped E` on the caller's side: the function
+// literal passed to an iterating function at the call whose text contains the anchor is verified like a loop body.
+type callbackSpec struct {
+	anchor  string
+	invs    []clause
+	stopped []clause
+}
+
 type FuncContract struct {
+	iter      *iterSpec
+	callbacks []*callbackSpec
 	relies            []clause // type contracts: conditions every implementation may rely on that are NOT checked at call sites (listed as assumptions)
 	pkg               string   // package path the block is declared in
 	key               string   // "Recv.Name" or "Name"
@@ -515,6 +534,74 @@ func (cs *ContractSet) parseFile(pkgPath, filename string, lines []string, lineN
 					cur.pureParams[n] = true
 				}
 			}
+		case "iterates":
+			if cur == nil {
+				cs.errors = append(cs.errors, where+": iterates outside a block")
+				continue
+			}
+			m := regexp.MustCompile(`^(\w+)\s+count\s+(.*?)\s+args\s+(.*)$`).FindStringSubmatch(strings.TrimSpace(rest))
+			if m == nil {
+				cs.errors = append(cs.errors, where+": expected `iterates <param> count <E> args <E1>, <E2>`")
+				continue
+			}
+			it := &iterSpec{param: m[1], text: strings.TrimSpace(rest)}
+			ce, err := parseSpecExpr(m[2])
+			if err != nil {
+				cs.errors = append(cs.errors, where+": "+err.Error())
+				continue
+			}
+			it.count = ce
+			okAll := true
+			for _, part := range splitTop(m[3], ',') {
+				ae, err := parseSpecExpr(strings.TrimSpace(part))
+				if err != nil {
+					cs.errors = append(cs.errors, where+": "+err.Error())
+					okAll = false
+					continue
+				}
+				it.args = append(it.args, ae)
+			}
+			if okAll {
+				cur.iter = it
+			}
+		case "callback":
+			if cur == nil {
+				cs.errors = append(cs.errors, where+": callback outside a block")
+				continue
+			}
+			m := regexp.MustCompile(`^("(?:[^"\\]|\\.)*")\s+(invariant|stopped)(?:\[([^\]]*)\])?\s+(.*)$`).FindStringSubmatch(strings.TrimSpace(rest))
+			if m == nil {
+				cs.errors = append(cs.errors, where+": expected `callback \"anchor\" invariant|stopped E`")
+				continue
+			}
+			anchor, _ := strconv.Unquote(m[1])
+			ex, err := parseSpecExpr(m[4])
+			if err != nil {
+				cs.errors = append(cs.errors, where+": "+err.Error())
+				continue
+			}
+			var cbProps []string
+			for _, w := range strings.Fields(strings.ReplaceAll(m[3], ",", " ")) {
+				if regexp.MustCompile(`^C\d+$`).MatchString(w) {
+					cbProps = append(cbProps, w)
+				}
+			}
+			var cb *callbackSpec
+			for _, x := range cur.callbacks {
+				if x.anchor == anchor {
+					cb = x
+				}
+			}
+			if cb == nil {
+				cb = &callbackSpec{anchor: anchor}
+				cur.callbacks = append(cur.callbacks, cb)
+			}
+			cl := clause{kind: "callback-" + m[2], text: m[4], expr: ex, line: where, props: cbProps}
+			if m[2] == "invariant" {
+				cb.invs = append(cb.invs, cl)
+			} else {
+				cb.stopped = append(cb.stopped, cl)
+			}
 		case "law":
 			if cur != nil && cur.kind == "table" {
 				// law <name> [args]   |   law[C02,C19] <name> [args]   (property ids for this law only)
@@ -809,6 +896,8 @@ func splitTop(s string, sep byte) []string {
 // ---- spec expression syntax: Go expressions + ==>, <==>, forall/exists ----
 
 func parseSpecExpr(s string) (ast.Expr, error) {
+	// $name: a program variable whose name is a keyword of the specification language (exists, forall, old, ...)
+	s = regexp.MustCompile(`\$(\w+)`).ReplaceAllString(s, "dollar__$1")
 	g, err := rewriteSpec(s)
 	if err != nil {
 		return nil, err
